@@ -7,7 +7,9 @@ import (
 )
 
 // DilKey builds the library key for a 48-byte seed.
-func DilKey(seed []byte) (*dilithium.Dilithium, error) { return dilithium.NewDilithiumFromSeed(Arr48(seed)) }
+func DilKey(seed []byte) (*dilithium.Dilithium, error) {
+	return dilithium.NewDilithiumFromSeed(Arr48(seed))
+}
 
 // DilRef builds the reference key: zeta = SHAKE256(seed48)[0:32] as the library does.
 func DilRef(seed []byte) *dilref.Keys {
@@ -62,4 +64,67 @@ func Classify(trace []dilref.Attempt) TraceInfo {
 		}
 	}
 	return ti
+}
+
+// HintChain overwrites the 83-byte hint section of a Dilithium5 signature with the one structure that
+// lets a decoder WITHOUT the "count <= omega" guard run off the end of the section: rows 0..row-1 carry
+// strictly increasing counts ending at k <= 75, row `row` claims v > 75 positions, the position bytes from
+// k upwards are strictly increasing and the eight count bytes themselves continue that strictly increasing
+// chain (the decoder reads them as positions once j passes 74). With the guard it is simply rejected.
+func HintChain(sig []byte, row int, v byte, seed uint64) []byte {
+	const offHint, offCnt = 32 + 7*640, 32 + 7*640 + 75
+	o := append([]byte{}, sig...)
+	if v < 76 {
+		v = 76
+	}
+	if int(v) > 255-(7-row) {
+		v = byte(255 - (7 - row))
+	}
+	x := seed | 1
+	next := func(n int) int { x ^= x << 13; x ^= x >> 7; x ^= x << 17; return int(x>>3) % n }
+	// counts of the rows before `row`: strictly increasing, last one = k
+	k := 0
+	counts := make([]int, 8)
+	if row > 0 {
+		k = 75 - next(4) // 72..75
+		for i := row - 1; i >= 0; i-- {
+			counts[i] = k - (row - 1 - i)
+		}
+	}
+	counts[row] = int(v)
+	for i := row + 1; i < 8; i++ {
+		counts[i] = int(v) + (i - row)
+	}
+	// positions: rows before `row` get strictly increasing positions inside each row
+	pos := 0
+	for i := 0; i < row; i++ {
+		n := counts[i]
+		if i > 0 {
+			n -= counts[i-1]
+		}
+		for j := 0; j < n; j++ {
+			o[offHint+pos] = byte(j * 255 / (n + 1)) // increasing within the row
+			if j > 0 && o[offHint+pos] <= o[offHint+pos-1] {
+				o[offHint+pos] = o[offHint+pos-1] + 1
+			}
+			pos++
+		}
+	}
+	// positions k..74 of the overflowing row: strictly increasing and below the first count byte
+	first := counts[0]
+	rem := 75 - k
+	for j := 0; j < rem; j++ {
+		val := j
+		if first-1-rem > 0 {
+			val = j + next(first-rem)
+		}
+		if j > 0 && val <= int(o[offHint+k+j-1]) {
+			val = int(o[offHint+k+j-1]) + 1
+		}
+		o[offHint+k+j] = byte(val)
+	}
+	for i := 0; i < 8; i++ {
+		o[offCnt+i] = byte(counts[i])
+	}
+	return o
 }
